@@ -1,6 +1,6 @@
-CONSTANTS U <- UQ  DevBoolIsInt = TRUE  DevHashByRep = FALSE  KeySeq <- KeysQ  MaxDepth = 0
+CONSTANTS U <- UQ  DevBoolSeq = FALSE  DevBoolKey = TRUE  DevHashByRep = FALSE  KeySeq <- KeysQ  MaxDepth = 0
 INIT InitTI
-NEXT NextTI
+NEXT NextTI2
 INVARIANT Reflexive
 INVARIANT NaNIrreflexive
 INVARIANT Symmetric
